@@ -11,7 +11,7 @@ Trusted: this file (regexes below, the C++ literal un-escaper, the regex-subset 
 import os, re, sys
 
 REPO = os.environ.get("VERIF_REPO", "/repo")
-OUT = os.path.join(os.path.dirname(os.path.abspath(__file__)), "..", "coq", "Gen", "Consts.v")
+OUT = os.path.join(os.environ.get("VERIF_COQ_DIR") or os.path.join(os.path.dirname(os.path.abspath(__file__)), "..", "coq"), "Gen", "Consts.v")
 
 
 class Missing(Exception):
